@@ -151,6 +151,7 @@ def run(ctx):
         core.check_props(ctx, ["Props/C03.v"])
         from vlib import ties2
         ties2.run(ctx, "Tie/C03.v")
+        ties2.run_items(ctx)
     cases = [gen_case(ctx.rng, odd=(i % 10 == 0)) for i in range(n)]
     reqs = [("rules_trace", c) for c in cases]
     impl = [impl_rules(c) for c in cases]
